@@ -1,1 +1,49 @@
-From Coq Require Import ZArith.
+(* C14 — Palette options override exactly what they say, and are sanitised.
+   Statements only; proofs in proofs/DecProofs.v.  The model's values are immutable, so "neither the
+   encoded bytes nor the caller's palette array are modified" is tied to the code by the write-footprint
+   table (C18) and by the before/after comparison in the harness. *)
+From Coq Require Import ZArith Bool List.
+From IVG Require Import SF NumCodec Color Calls Decoder DecProofs.
+Import ListNotations.
+Local Open Scope Z_scope.
+
+(* options are applied in order on top of the suggested palette *)
+Theorem opts_fold : forall os m, apply_opts os m = fold_left apply_one os (Some m).
+Proof. exact DecProofs.opts_fold. Qed.
+Print Assumptions opts_fold.
+
+(* a single-index override changes that entry and only that entry *)
+Theorem override_one : forall (l : list rgba) i j x d, (i < length l)%nat ->
+  nth j (set_nth l i x) d = if Nat.eqb i j then x else nth j l d.
+Proof.
+  intros l i j x d L. destruct (Nat.eqb i j) eqn:E.
+  - apply Nat.eqb_eq in E. subst. apply set_nth_same. exact L.
+  - apply Nat.eqb_neq in E. apply set_nth_other; assumption.
+Qed.
+Print Assumptions override_one.
+
+(* the palette that reaches Reset (and so seeds palette-indexed colours and the initial CREG) *)
+Theorem reset_palette : forall os b its m rest m',
+  dec_metadata b = (its, ChunksOk m rest) -> apply_opts os m = Some m' ->
+  exists tl, fst (decode_calls os b) = CReset (m_vb m') (sanitize_palette (m_pal m')) :: tl.
+Proof. exact DecProofs.reset_palette. Qed.
+Print Assumptions reset_palette.
+
+(* entries that are not valid premultiplied colours act as opaque black ... *)
+Theorem sanitised : forall p i, (i < length p)%nat ->
+  nth i (sanitize_palette p) opaque_black = let c := nth i p opaque_black in if valid_premul c then c else opaque_black.
+Proof. exact DecProofs.sanitize_nth. Qed.
+Print Assumptions sanitised.
+
+Theorem sanitised_all_valid : forall p, Forall (fun c => valid_premul c = true) (sanitize_palette p).
+Proof. exact DecProofs.sanitize_valid. Qed.
+Print Assumptions sanitised_all_valid.
+
+(* ... and are never reinterpreted as gradients *)
+Theorem premul_not_gradient : forall c, 0 <= cb c -> valid_premul c = true -> valid_gradient c = false.
+Proof. exact DecProofs.premul_not_gradient. Qed.
+Print Assumptions premul_not_gradient.
+
+Example ex_gradient_looking_entry :
+  fst (decode_calls [OColorAt 0 (mkRGBA 2 74 138 0)] [137; 73; 86; 71; 0]) = [CReset default_viewbox default_palette].
+Proof. vm_compute. reflexivity. Qed.
